@@ -1,6 +1,14 @@
 package main
 
 import (
+	"crypto/sha256"
+	"encoding/hex"
+
+	"github.com/elementsproject/peerswap/onchain"
+	"github.com/elementsproject/peerswap/swap"
+	"github.com/vulpemventures/go-elements/elementsutil"
+	"github.com/vulpemventures/go-elements/network"
+	"github.com/vulpemventures/go-elements/transaction"
 	"sync"
 
 	"context"
@@ -137,6 +145,23 @@ func cmdProbe(name string) {
 			fmt.Println("cancel NOT handled after 3 s: header handler and message handler wait for each other (deadlock)")
 			os.Exit(0)
 		}
+	case "c01-liquid":
+		lq := onchain.NewLiquidOnChain(nil, &network.Regtest)
+		taker, maker := detKey("t"), detKey("m")
+		h := sha256.Sum256([]byte("p"))
+		bk := detKey("blind")
+		params := &swap.OpeningParams{TakerPubkey: hex.EncodeToString(taker.PubKey().SerializeCompressed()), MakerPubkey: hex.EncodeToString(maker.PubKey().SerializeCompressed()),
+			ClaimPaymentHash: hex.EncodeToString(h[:]), Amount: 100000, CSV: 10080, BlindingKey: bk}
+		script, err := lq.GetOutputScript(params)
+		fmt.Println("script", len(script), err)
+		asset := append([]byte{0x01}, elementsutil.ReverseBytes(h2bytes(network.Regtest.AssetID))...)
+		val, _ := elementsutil.ValueToBytes(100000)
+		tx := transaction.NewTx(2)
+		tx.AddOutput(transaction.NewTxOutput(asset, val, script))
+		hx, err := tx.ToHex()
+		fmt.Println("txhex", len(hx), err)
+		ok, err := lq.ValidateTx(params, hx)
+		fmt.Println("validate explicit output:", ok, err)
 	case "c09-id":
 		a := newCtx(w)
 		fmt.Println("incoming swap-out request:", a.Step("new outReceiver btc"), a.state())
@@ -161,4 +186,9 @@ func cmdProbe(name string) {
 			fmt.Println("  ", strings.TrimSpace(o.String()))
 		}
 	}
+}
+
+func h2bytes(s string) []byte {
+	b, _ := hex.DecodeString(s)
+	return b
 }
